@@ -49,9 +49,7 @@ def check_ok_state(res, s, view, name, fn, entry):
 
 
 def data_view(v):
-    if isinstance(v, StructV) and isinstance(v.fields.get("data"), SliceV):
-        return v.fields["data"]
-    return None
+    return field_of(v, SliceV, "data")
 
 
 def header_accessors(res, F, D, I, s, v, name, entry):
